@@ -210,7 +210,9 @@ func (e *env) advance(u *upload) bool {
 		e.r.Count("uploads", 1)
 		e.r.Distinct("cells", u.cell)
 		e.trace = append(e.trace, fmt.Sprintf("%s in %s size=%d -> %d", u.cell, u.repo, len(u.content), code))
-		_, declExists := e.have[u.repo][u.decl]
+		if _, declExists := e.have[u.repo][u.decl]; declExists && u.proto == "mono" {
+			e.r.Count("wrong_bytes_for_a_stored_digest", 1) // (no excuse: the bytes received do not match, the answer is a refusal)
+		}
 		switch {
 		case u.kind == "right":
 			if code != 201 {
@@ -219,9 +221,6 @@ func (e *env) advance(u *upload) bool {
 				e.have[u.repo][u.good] = u.content
 				e.r.Count("uploads_acknowledged", 1)
 			}
-		case declExists && u.proto == "mono" && code == 201:
-			// de-duplication: the declared digest is already stored, the body need not be read (DESIGN C01 "may")
-			e.r.Count("dedup_answers", 1)
 		case code < 400 || code >= 500:
 			e.viol("wrong-digest-not-4xx", fmt.Sprintf("upload whose declared digest (%s) does not match the bytes answered %d (%s)", u.kind, code, u.cell))
 		default:
